@@ -1,5 +1,65 @@
 package c01
 
-import "verif/internal/pkit"
+import (
+	"fmt"
+	"os"
+	"strings"
 
-func probes(c *pkit.Ctx) []pkit.Probe { return nil }
+	"verif/internal/gorun"
+	"verif/internal/pkit"
+)
+
+// probes: the open finding is demonstrated on a fixed package per name; when goderive no longer fails on any of
+// them the region is generated normally again.
+func probes(c *pkit.Ctx) []pkit.Probe {
+	return []pkit.Probe{{ID: shadowFinding, Run: func() (bool, string, error) {
+		var failing []string
+		for _, n := range knownShadowed {
+			dir := c.CaseDir()
+			src := fmt.Sprintf(`package p
+
+type %[1]s struct {
+	P *int
+	L []int
+}
+
+type W struct {
+	F %[1]s
+	G []%[1]s
+	H map[string]%[1]s
+	J [2]%[1]s
+}
+
+func f1(a, b *W) bool { return deriveEqual(a, b) }
+
+func f2(a, b *W) int { return deriveCompare(a, b) }
+
+func f4(a, b *W) { deriveDeepCopy(a, b) }
+
+func f6(a *W) string { return deriveGoString(a) }
+
+func f13(a func(%[1]s) bool, b []%[1]s) []%[1]s { return deriveFilter(a, b) }
+
+func f14(a func(%[1]s) *%[1]s, b []%[1]s) []*%[1]s { return deriveFmap(a, b) }
+
+func f15(a [][]%[1]s) []%[1]s { return deriveJoin(a) }
+`, n)
+			files := map[string]string{"go.mod": "module subj\n\ngo 1.23\n", "p/p.go": src}
+			if err := gorun.WriteFiles(dir, files); err != nil {
+				return false, "", err
+			}
+			sig, msg := Judge(dir, []string{"./p"})
+			os.RemoveAll(dir)
+			if sig != nil && sig["oracle"] == "infra" {
+				return false, "", fmt.Errorf("%s", msg)
+			}
+			if sig != nil && strings.Contains(msg, n+" is not a type") {
+				failing = append(failing, n)
+			}
+		}
+		if len(failing) > 0 {
+			return true, "a struct type named " + strings.Join(failing, ", ") + " is hidden by the variable of that name inside the generated function that mentions the type", nil
+		}
+		return false, "", nil
+	}}}
+}
